@@ -4,6 +4,7 @@ package explore
 import (
 	"crypto/sha256"
 	"encoding/hex"
+	"encoding/json"
 	"fmt"
 	"math/big"
 	"sort"
@@ -88,6 +89,10 @@ type State struct {
 	LiveEqDisk bool
 	DiskErr    string
 	DiskDiff   []obs.DiffEntry
+	Versions   string // UpdateVersions()
+	InfoHeight int64
+	InfoHash   []byte
+	Events     string // JSON of the events stored for this height
 }
 
 // Step is one executed block.
@@ -144,6 +149,18 @@ func Capture(n *lab.Node, apphash []byte, noDisk bool) *State {
 	s.Ledger = obs.NewLedger(&s.Export)
 	s.Emission = new(big.Int).Set(n.App.GetEmission())
 	s.Key = n.AppDBDigest()
+	for _, v := range n.App.UpdateVersions() {
+		s.Versions += fmt.Sprintf("%s@%d;", v.Name, v.Height)
+	}
+	inf := n.App.Info(abci.RequestInfo{})
+	s.InfoHeight, s.InfoHash = inf.LastBlockHeight, inf.LastBlockAppHash
+	for _, e := range n.App.GetEventsDB().LoadEvents(uint32(n.Height)) {
+		js, err := json.Marshal(e)
+		if err != nil {
+			js = []byte(err.Error())
+		}
+		s.Events += e.Type() + ":" + string(js) + ";"
+	}
 	s.LiveEqDisk = true
 	if !noDisk {
 		d, err := n.DiskExport()
